@@ -2,7 +2,7 @@
    setpen/chpen.  Nothing but the property theorems, each closed by [exact <lemma>]. *)
 From Coq Require Import ZArith List Bool Lia.
 From Tickit Require Import Csi VT TermPenDefs TermPenSpec TermPenProofs Gen_Palette Gen_SgrOnOff.
-From Tickit Require Import XtermDefs TermApiDefs TermApiProofs.
+From Tickit Require Import XtermDefs TermApiDefs TermApiProofs TermPenC19.
 Import ListNotations.
 Local Open Scope Z_scope.
 
@@ -168,3 +168,98 @@ Theorem C10_api_pen : forall (is_set : bool) l t v p,
     ((forall a, (if is_set then logical_set l p else logical_ch l p) a = l a) -> ts = []).
 Proof. exact api_pen_ok_step. Qed.
 Print Assumptions C10_api_pen.
+
+(* ---- composition with C19 (the pen as a partial attribute map; PenDefs.v / PenSpec.v / PenProofs.v).
+   The model C10 is proved for keeps pens as partial maps  attr -> option aval  and applies the tickit_pen_*
+   accessors to the maps.  C19 models struct TickitPen concretely (value fields, validity bits, bit-field
+   wraps) and PenSpec.lookup is the partial map a TickitPen denotes.  [rep q p]: the map p is
+   option_map cv (lookup q (pattr_of _)), i.e. p IS C19's map of the TickitPen q (cv / pattr_of only rename
+   constructors).
+   C10_pen_accessors_are_C19: every accessor term.c and the driver call (has_attr, get_bool/int/colour_attr,
+     has/get_colour_attr_rgb8, equiv_attr, nondefault_attr, is_nondefault) returns on p what C19's function
+     returns on q -- for every q, no well-formedness needed.
+   C10_pen_mutations_are_C19: tickit_pen_set_colour_attr (of a storable index) and tickit_pen_copy_attr keep
+     [rep]; tickit_pen_new() is the empty map.  (term.c's pen path calls no other mutator: not
+     tickit_pen_copy, not clear_attr.)
+   C10_pen_is_C19: the loops of tickit_term_setpen / tickit_term_chpen written over C19's pens with C19's
+     functions (c_term_setpen / c_term_chpen: cached pen tt->pen, delta = tickit_pen_new(), palette conversion)
+     are simulated by TermPenDefs.term_setpen / term_chpen: same Faults, cached pens and deltas related.
+   C10_do_pen_C19: with the driver's SGR encoder on top (it reads delta and final pen through accessors only):
+     same Faults, the SAME tokens, related cached pens -- so C10_setpen / C10_chpen / C10_history / C10_api_pen
+     speak about TickitPens as C19 describes them.
+   C10_logical_set_is_C19_reads: the logical pen after set-pen is literally C19's [reads] of the argument;
+   C10_logical_ch_is_C19_copy: after change-pen it is (the map of) tickit_pen_copy(logical, arg, overwrite=1),
+     by C19_copy's entry law;  C10_range_is_representable: the values C10 quantifies over are C19-representable.
+   Hypotheses: PenProofs.wf of the concrete pens (every bit-field holds a value of its width: true of any
+   memory content) -- nothing else; in particular no range hypothesis: copy_attr copies wrapped values. *)
+Theorem C10_pen_accessors_are_C19 : forall q p a, rep_at q p a ->
+  has_attr p a = Tickit.PenDefs.has_attr q (pattr_of a) /\
+  get_bool_attr p a = Tickit.PenDefs.get_bool q (pattr_of a) /\
+  get_int_attr p a = Tickit.PenDefs.get_int q (pattr_of a) /\
+  get_colour_attr p a = Tickit.PenDefs.get_colour q (pattr_of a) /\
+  has_colour_attr_rgb8 p a = Tickit.PenDefs.has_rgb q (pattr_of a) /\
+  get_colour_attr_rgb8 p a = crgb (Tickit.PenDefs.get_rgb q (pattr_of a)) /\
+  nondefault_attr p a = Tickit.PenDefs.nondefault_attr q (pattr_of a) /\
+  (forall q2 p2, rep_at q2 p2 a -> equiv_attr p p2 a = Tickit.PenDefs.equiv_attr q q2 (pattr_of a)).
+Proof. exact pen_accessors_C19. Qed.
+Print Assumptions C10_pen_accessors_are_C19.
+
+Theorem C10_pen_mutations_are_C19 :
+  (forall q p a i, rep q p -> attr_type a = TyColour -> -1 <= i <= 255 ->
+     rep (Tickit.PenDefs.set_colour q (pattr_of a) i) (set_colour_attr p a i)) /\
+  (forall dq dp sq sp a, rep dq dp -> rep_at sq sp a -> Tickit.PenProofs.wf sq ->
+     rep (Tickit.PenDefs.copy_attr dq sq (pattr_of a)) (copy_attr dp sp a)) /\
+  (forall g, rep (Tickit.PenDefs.pen_new g) empty_pen) /\
+  (forall q p, rep q p -> is_nondefault p = Tickit.PenDefs.is_nondefault q).
+Proof. exact (conj rep_set_colour (conj rep_copy_attr (conj rep_new rep_is_nondefault))). Qed.
+Print Assumptions C10_pen_mutations_are_C19.
+
+Theorem C10_pen_is_C19 : forall colors g tq tp pq pp,
+  rep tq tp -> rep pq pp -> Tickit.PenProofs.wf tq -> Tickit.PenProofs.wf pq -> Tickit.PenProofs.wf g ->
+  st_rel (c_term_setpen colors g tq pq) (term_setpen colors tp pp) /\
+  st_rel (c_term_chpen colors g tq pq) (term_chpen colors tp pp).
+Proof. exact pen_is_C19. Qed.
+Print Assumptions C10_pen_is_C19.
+
+Theorem C10_do_pen_C19 : forall (is_set : bool) capacity colon rgb8 colors g tq tp pq pp,
+  rep tq tp -> rep pq pp -> Tickit.PenProofs.wf tq -> Tickit.PenProofs.wf pq -> Tickit.PenProofs.wf g ->
+  match c_do_pen is_set capacity colon rgb8 colors g tq pq,
+        (if is_set then do_setpen capacity colon rgb8 (mkTp tp colors) pp
+         else do_chpen capacity colon rgb8 (mkTp tp colors) pp) with
+  | None, None => True
+  | Some (tq', ts), Some (s', ts') =>
+      ts = ts' /\ rep tq' (tp_pen s') /\ Tickit.PenProofs.wf tq' /\ tp_colors s' = colors
+  | _, _ => False
+  end.
+Proof. exact do_pen_C19. Qed.
+Print Assumptions C10_do_pen_C19.
+
+Theorem C10_logical_set_is_C19_reads : forall pq pp l, rep pq pp ->
+  forall a, logical_set l pp a = Some (cv (Tickit.PenSpec.reads pq (pattr_of a))).
+Proof. exact logical_set_is_reads. Qed.
+Print Assumptions C10_logical_set_is_C19_reads.
+
+Theorem C10_logical_ch_is_C19_copy : forall lq l pq pp, rep lq l -> rep pq pp -> Tickit.PenProofs.wf pq ->
+  rep (Tickit.PenDefs.copy lq pq true) (logical_ch l pp).
+Proof. exact logical_ch_is_copy. Qed.
+Print Assumptions C10_logical_ch_is_C19_copy.
+
+Theorem C10_range_is_representable : forall a v, aval_in_range a (cv v) ->
+  Tickit.PenSpec.representable (pattr_of a) v = true.
+Proof. exact in_range_representable. Qed.
+Print Assumptions C10_range_is_representable.
+
+(* non-vacuity: a TickitPen built by C19's setters on zeroed memory; it denotes the first pen of
+   C10_nonvacuous and the loop over C19 pens emits the same SGR *)
+Example C10_C19_nonvacuous :
+  Tickit.PenProofs.wf zero_pen /\ Tickit.PenProofs.wf bold_fg200 /\
+  rep bold_fg200 (pset (pset empty_pen ABold (Some (VBool true))) AFg (Some (VCol 200 None))) /\
+  match c_do_pen true chpen_params_capacity true true 16 zero_pen (Tickit.PenDefs.pen_new zero_pen) bold_fg200 with
+  | Some (tq', ts) =>
+      ts = [TCsi None [[Some 95]; [Some 49]; [Some 1]; [Some 24]; [Some 23]; [Some 27]; [Some 29];
+                       [Some 10]; [Some 25]; [Some 75]] [] 109] /\
+      Tickit.PenSpec.lookup tq' Tickit.PenDefs.FG = Some (Tickit.PenSpec.VCol 13 None) /\
+      Tickit.PenSpec.lookup tq' Tickit.PenDefs.BOLD = Some (Tickit.PenSpec.VBool true)
+  | None => False
+  end.
+Proof. exact c19_example. Qed.
